@@ -23,6 +23,17 @@ SP = "ZConfig.schema"
 REF_NOT_PATH = r"[A-Za-z][-+.A-Za-z0-9]+:.*"
 
 
+def url_helpers(ctx, rule, names, what="file: rewrite"):
+    """ZConfig.url.<name> == reference (also used by C06: the join of an
+    include reference against the including resource's URL)."""
+    run, m, P = ctx.run, ctx.model, ctx.program
+    for name in names:
+        lf = m.fn("ZConfig.url." + name)
+        r = X.compare(P, lf, X.spec_function(m, "ref_url.py", name),
+                      rename=_rename, independent=_char_observation)
+        _verdict(run, rule, lf, what, r, m)
+
+
 def run(ctx):
     run, m, P = ctx.run, ctx.model, ctx.program
     run.explanation = (
@@ -53,12 +64,7 @@ def run(ctx):
              floor=2)
 
     _r1(ctx)
-    for live, ref in (("urlnormalize", "urlnormalize"),
-                      ("urldefrag", "urldefrag"), ("urljoin", "urljoin")):
-        lf = m.fn("ZConfig.url." + live)
-        r = X.compare(P, lf, X.spec_function(m, "ref_url.py", ref),
-                      rename=_rename, independent=_char_observation)
-        _verdict(run, "C18.R2", lf, "file: rewrite", r, m)
+    url_helpers(ctx, "C18.R2", ("urlnormalize", "urldefrag", "urljoin"))
 
     lf = m.fn("ZConfig.url.urlunsplit")
     r = X.compare(P, lf, X.spec_function(m, "ref_url.py", "urlunsplit"),
